@@ -49,3 +49,12 @@ func VerifTCPMuxExpireProbe(m *TCPMuxDefault, ufrag string, isIPv6 bool, local n
 
 	return true, conn.closedChan
 }
+
+// VerifTCPMuxHold takes the mux lock and returns the function that releases it: the harness
+// uses it to line up a client's first frame and the close of its ufrag's packet conn in the
+// window before the cleanup goroutine of the closed packet conn has run.
+func VerifTCPMuxHold(m *TCPMuxDefault) func() {
+	m.mu.Lock()
+
+	return m.mu.Unlock
+}
